@@ -2208,9 +2208,12 @@ instance's own value (i.e.: recurse stacks that reside in conditions, etc ...).
 func (r stack) traverseStackInCondition(u any, idx int, indices ...int) (slice any, ok, done bool) {
 
 	if c, cOK := conditionTypeAliasConverter(u); cOK {
-		// End of the line :)
+		// End of the line :) - hand out the element as
+		// it is stored (what Index returns), not the
+		// converted instance: a user-defined alias
+		// must keep its type.
 		if len(indices) <= 1 {
-			slice = c
+			slice = u
 			ok = true
 			done = true
 		} else {
